@@ -120,7 +120,7 @@ S9 = Scenario(
     ["port.create_pin", "port.add_pin", "definition.ports=", "port.pins=", "definition.create_port",
      "wire.connect_pin", "wire.disconnect_pin", "instance.reference="],
     limits={"positions": (None, 0), "names": (None,), "counts": (None, 1),
-            "proxy_pairs": lambda w: []},
+            "proxy_pairs": lambda w: [], "odd_bulk": False},
     depth={"quick": 2, "thorough": 3},
     note="definition reshaped after it was instanced (pin added to a non-last port, ports reordered), then re-pointed")
 
@@ -181,5 +181,5 @@ S11 = Scenario(
     depth={"quick": 2, "thorough": 3},
     note="two netlists referencing each other's definitions: cross-netlist moves, re-points and top changes")
 
-STRUCTURAL += [S10, S11]
+STRUCTURAL += [S10, S11, S9]
 INSTANCE_SCENARIOS += [S11]
